@@ -398,7 +398,35 @@ ROUNDS = dict(
                  "node graph rows are parsed by the harness bridge from the bytes produced by the real code"],
 )
 
-FAMILIES = {"C01": MPT, "C02": MPT, "C14": MPT, "C06": SC, "C07": SC, "C08": C08, "C03": ROUNDS, "C04": ROUNDS, "C05": ROUNDS}
+# ----------------------------------------------------------------------------- family: sync (C17)
+
+def _sync_ops(events):
+    e0 = [e for e in events if e["op"] == "syncinit"][0]
+    rp = [e for e in events if e["op"] == "repair"]
+    vers = e0.get("vers", [1])
+    return dict(init=e0["init"], absent=e0["absent"], buildvers=vers, repairver=rp[0]["ver"] if rp else 0)
+
+
+SYNC = dict(
+    name="sync", component="sync", trace_module="MPTSyncTrace", trace_cfg="MPTSyncTrace.cfg",
+    design={"quick": [("MPTSync_MC", "MPTSync_MC.cfg")], "thorough": [("MPTSync_MC", "MPTSync_MC.cfg")]},
+    gen={"quick": [dict(module="MPTSync_MC", cfg="MPTSync_gen.cfg", workers=1)],
+         "thorough": [dict(module="MPTSync_MC", cfg="MPTSync_genbig.cfg", workers=1, timeout=3000)]},
+    exec_args=lambda tier, seed: (["-n", 600] if tier == "quick" else ["-n", 20000]),
+    flags={"C17": {"shape", "plan", "hasmissing", "allmissing", "missingkeys", "lookup", "repairres", "repairroot",
+                   "repaircontent", "donorchanged", "repairkeys", "unknown-op"}},
+    distinct=lambda s: s.get("distinct_plans", 0),
+    rule="plans = (a) every (content, set of removed non-root nodes) over all contents with 2..4 (thorough: 2..6) entries of a "
+         "7-path universe, emitted by TLC from MPTSync.tla; (b) seeded random larger tries with single-node, subtree and scattered "
+         "removals; tries built at one or several versions, repaired at the same or another version, donors with unrelated extra "
+         "nodes; distinct_nontrivial = distinct (content, removal set) pairs",
+    summary_keys=["panics", "go_histories"],
+    ops_of=_sync_ops,
+    assumptions=["nodes are identified by position in the canonical trie (C02 ties the real shape to it)",
+                 "GetMissingNodeKeys is judged on a fresh trie object after exactly one full traversal, as a set"],
+)
+
+FAMILIES = {"C01": MPT, "C02": MPT, "C14": MPT, "C06": SC, "C07": SC, "C08": C08, "C03": ROUNDS, "C04": ROUNDS, "C05": ROUNDS, "C17": SYNC}
 PROPS = dict(FAMILIES)
 
 
